@@ -28,6 +28,8 @@ M = [
     'NLKaNa', 'LCab:CLaLb', 'CLaLb:LCab', 'Lb:LCab:La', 'MNa:NLa', 'LLMa:LMa:LLb',
     'b:La:Lb:MNa', 'LMa:Lb', 'MLMa:a', 'KLaMNa', 'ALaMNa', 'CMaLMa', 'ULaMa', 'UMaLMa',
     'LULaa', 'MTa:Ma', 'LNNa:La', 'NMNLa:La',
+    # several possibility premises (world-count limits, serial dead ends)
+    'e:LLa:Mb:Mc:Md', 'e:LLa:Mb:Mc:Md:Me', 'd:La:Mb:Mc', 'c:LMa:Mb', 'Mc:LLa:Mb',
 ]
 
 Q = [
@@ -38,6 +40,8 @@ Q = [
     'Gn:Imn:Fm', 'Hnm:Imn:Hmn', 'Hnn:Imn:Hmm', 'VxCFxGx:VxCFxHx:VxCHxGx',
     'SxNFx:NVxFx', 'NVxFx:SxNFx', 'VxVyHxy:VyVxHxy', 'SxSyHxy:SySxHyx', 'CFmSxFx', 'CVxFxFm',
     'SxCFxVyFy', 'AVxFxSxNFx', 'Fm:VxCGxFx:Gm', 'KFmGm:VxKFxGx',
+    # a universal whose own sentence introduces the constant it must be instantiated with
+    'Hmm:VxHxm', 'SzHzz:SyVxHxy', 'Hnm:VxHxm:Gn', 'Hmn:VxVyHxy',
 ]
 
 MQ = [
@@ -85,6 +89,19 @@ def prop(size, letters=LETTERS, max_premises=2):
                 if s not in seen:
                     seen.add(s)
                     out.append(s)
+    return out
+
+
+def depth1_pairs():
+    '''premise -> conclusion pairs over the sentences {x, ~x, x op y, ~(x op y), *x, ~*x}
+    of two letters (directed: negated binary against negated binary is size 4)'''
+    sents = ['a', 'b', 'Na', 'Nb', 'Ta', 'NTa']
+    for op in BINARY:
+        sents += [f'{op}ab', f'N{op}ab']
+    out = list(sents)
+    for c in sents:
+        for p in sents:
+            out.append(f'{c}:{p}')
     return out
 
 
